@@ -1,9 +1,12 @@
 // ===== prelude/env.rs — stand-ins U-ENV needs: Context (opaque here, verified in U-CTX), mailbox receiver, payloads =====
-#[verifier::external_body] #[verifier::accept_recursive_types(A)]
-pub struct Context<A> { p: core::marker::PhantomData<A> }
-// ownership views of what the loop future captures (Context's view is derived from its real fields and proved weak in unit ctx)
-impl<A> Context<A> { pub uninterp spec fn chan(&self) -> int; }
-impl<A> OwnView for Context<A> { open spec fn own(&self) -> Own { Own { none: false, chan: self.chan(), s_tx: false, s_force: false, w_tx: true, w_force: true, mixed: false } } }
+// Context is the real struct (extracted below); these are the types of its fields this unit does not look into
+#[verifier::external_body] #[verifier::accept_recursive_types(K)] #[verifier::accept_recursive_types(V)] pub struct VMap<K, V> { p: core::marker::PhantomData<(K, V)> }
+impl<K, V> OwnView for VMap<K, V> { open spec fn own(&self) -> Own { own_none() } }
+impl<T> OwnView for Vec<T> { open spec fn own(&self) -> Own { own_none() } }
+#[verifier::external_body] pub struct AbortHandleV { x: u8 }
+#[verifier::external_body] pub struct TypeIdV { x: u8 }
+#[verifier::external_body] pub struct AnyBoxObj { x: u8 }
+impl<A> PayloadStream<A> { }
 impl<A> OwnView for PayloadStream<A> { open spec fn own(&self) -> Own { own_none() } }
 impl<T> OwnView for OsSender<T> { open spec fn own(&self) -> Own { own_none() } }
 // an address of the actor itself (only to give a view to a loop future that wrongly captures one)
@@ -12,14 +15,8 @@ impl<A> Addr<A> { pub uninterp spec fn chan(&self) -> int; }
 impl<A> OwnView for Addr<A> { open spec fn own(&self) -> Own { Own { none: false, chan: self.chan(), s_tx: true, s_force: true, w_tx: false, w_force: false, mixed: false } } }
 pub broadcast axiom fn own_of_actor<A: Actor>(a: &A) ensures #[trigger] own_of(a) == own_none();      // client contract: the actor value does not store a strong handle to itself
 pub broadcast axiom fn own_of_stream<S: VStream>(s: &S) ensures #[trigger] own_of(s) == own_none();   // client contract: the attached stream holds no strong handle to the actor
-pub open spec fn ctx_stable<A>(pre: &Context<A>, post: &Context<A>) -> bool { true }
-impl<A> Context<A> {
-    // after the C07 repair: Context::abort_tasks (body verified in U-CTX: every registered timer task is aborted and the list is emptied)
-    #[verifier::external_body]
-    pub fn abort_tasks(&mut self, Tracked(w): Tracked<&mut World>)
-        ensures emits(old(w), final(w), Ev::TimersCleared)
-    { unimplemented!() }
-}
+// user callbacks may use the context (register timers and children) but cannot re-point its links
+pub open spec fn ctx_stable<A>(pre: &Context<A>, post: &Context<A>) -> bool { post.id == pre.id && post.weak_tx == pre.weak_tx && post.weak_force_tx == pre.weak_force_tx }
 
 // payload.rs: `TaskFn<A>` is a boxed `for<'a> FnOnce(&'a mut A, &'a mut Context<A>) -> TaskFuture<'a>`; the unit's type rule
 // only matches that exact shape (FnOnce: at most once; `&'a mut A` held by the returned future: handlers cannot overlap).
